@@ -372,9 +372,12 @@ def _getter(run, p, E, f: Func, cls):
         raise UnknownIdiom('%s: no value-returning path' % f.qual)
     if not stores:
         uses = [x for x in walk_no_nested(f.node) if _is_name(x, 'store')]
-        if uses:
+        handed_on = {id(x) for c in deleg for a in list(c.args) + [k.value for k in c.keywords] for x in walk_self(a) if _is_name(x, 'store')}
+        if uses and not all(id(x) in handed_on for x in uses):
             raise UnknownIdiom('%s: `store` is used, but not through a `store[name] = value` statement' % f.qual)
-        run.fail('%s: the `store` argument is ignored' % tag, f, 'store-unused', runtime_witness='store={} stays empty after a successful call')
+        if not uses:
+            run.fail('%s: the `store` argument is ignored' % tag, f, 'store-unused', runtime_witness='store={} stays empty after a successful call')
+        # else: `store` is only handed on to the delegate getter -- decided below (the delegate records ITS value, not this getter's)
     for sn in stores:
         tgt = [t for t in sn.ast.targets if isinstance(t, ast.Subscript)][0]
         run.check(_is_name(tgt.slice, name), '%s: the value is stored under the parameter name' % tag, f, sn.ast)
